@@ -68,7 +68,7 @@ def run(check: Check) -> None:
     )
     check.info["rule"] = "case = (formula, training mode, follow-up layout); all paths of each case"
     check.bounds.update({"training_rows": mc.NROWS, "follow_up_rows": "<=3", "formulas_symbolic_training": len(F_SYM), "formulas_concrete_training": len(F_CONC)})
-    check.out_of_scope += ["lag (defined across rows; excluded by the property)", "hashed()", "NaN-valued states",
+    check.out_of_scope += ["lag (defined across rows; excluded by the property)", "hashed(), sparse output and the narwhals materializer are replayed natively at one concrete point (ground leg)", "NaN-valued states",
                            "spline formulas with symbolic TRAINING data (data-dependent knots: path explosion); they are trained concretely and followed up symbolically"]
     n = mc.NROWS
     df = mc.cat_frame()
@@ -94,6 +94,19 @@ def run(check: Check) -> None:
     from lib.parallel import run_cases
 
     run_cases(check, cases, _case)
+    # native leg (ground): what a symbolic cell cannot enter - hashed() (hashes the VALUES), sparse output, the narwhals materializer -
+    # replayed on row maps and through a pickle round trip at one concrete point
+    native_formulas = ["hashed(A, levels=5)", "hashed(A, levels=3):a + b", "hashed(B, levels=4) + C(A):center(a)", "0 + hashed(A, levels=7):hashed(B, levels=2)"] + gen_conc[: (40 if thorough else 6)]
+    for formula in native_formulas:
+        for out, mat in (("pandas", None), ("sparse", None), ("numpy", "narwhals")):
+            if mat and "hashed" in formula:
+                continue
+            p = {"kind": "c04_native_replay", "formula": formula, "output": out, "materializer": mat}
+            bad = replays.run(p)
+            check.case(f"native-replay:{formula}:{out}:{mat}")
+            check.obligation("pipeline.native_replay/ground", "refuted" if bad else "ground")
+            if bad:
+                check.violation(f"spec-replay::native({out},{mat or 'pandas'})::{bad.split(':', 1)[0]}", bad, p)
 
 
 def _case(check: Check, case, record=False):
